@@ -51,7 +51,7 @@ CHECKS = {
         "bin": "c03",
         "quick": cfgs(["dflt", "cmp", "p2", "rdx", "cmprdxfmt"]),
         "thorough": cfgs(["dflt", "cmp", "p2", "cmprdxfmt"]) + cfgs(["rdx"], args=["--all32"]),
-        "rule": "integer value family INT(T, r): every value of the 8/16-bit types; for wider types r^k-1, r^k, r^k+1, 2^j-1, 2^j, 2^j+1, "
+        "rule": "PAIRS (32..128-bit types): every pair of adjacent digits (a,b) at every position of the all-ones numeral of every length, and ascending/descending digit patterns of every length, every radix; integer value family INT(T, r): every value of the 8/16-bit types; for wider types r^k-1, r^k, r^k+1, 2^j-1, 2^j, 2^j+1, "
                 "MIN/MAX neighbourhoods, all sparse numerals (<= 2 or 3 non-zero digit positions, digits 1 and r-1) and all-(r-1) numerals of "
                 "every length; x every supported radix x 12 types; each written into a buffer of exactly FORMATTED_SIZE(_DECIMAL) bytes placed "
                 "flush against a trailing and a leading guard page with canaries; output compared byte for byte with the reference numeral "
@@ -68,7 +68,7 @@ CHECKS = {
         "thorough": cfgs(["dflt", "cmp", "p2", "rdx", "rdxfmt", "cmprdxfmt"]),
         "rule": "string families S (every string over {+,-,0,1,max digit in both cases,lowest non-digit,_,0xFF} to depth L), NUM (numerals of INT "
                 "values and of MAX+1, MAX+r, (MAX+1)*r, MAX*r+r-1 in 30 variants: case, leading zeros, sign, trailing junk, embedded invalid bytes), "
-                "FILL (repeated-digit numerals of every length up to digits(MAX)+3), RANGE (8/16-bit types: every value in [-70000, 70000]); "
+                "FILL (repeated-digit numerals of every length up to digits(MAX)+3), PAT (32..128-bit types: every adjacent digit pair at every position of all-ones numerals of every length; ascending/descending digit patterns of every length up to digits(MAX)+3), RANGE (8/16-bit types: every value in [-70000, 70000]); "
                 "x 12 types x radices x {parse, parse_partial} x no_multi_digit on/off; value, consumed count, error kind and index compared "
                 "with the literal left-to-right reference scan; non-trivial = inputs that are valid numerals or overflow",
         "bounds": {
